@@ -182,7 +182,7 @@ def run_shard(shard: Dict[str, Any]) -> Acc:
     rng = random.Random(shard["seed"])
     if shard["kind"] == "library":
         for i in range(shard["n"]):
-            inp = libgen.gen_repcode_input(rng, max_distance=4, max_cycles=6)
+            inp = libgen.gen_repcode_input(rng, max_distance=4, max_cycles=6, composite_p=0.3)
             inp["glob"] = libgen.gen_global_settings(rng, default=rng.random() < 0.4)
             acc.hist("class", "library/" + inp["constructor"])
             acc.case(bp.phash(inp), inp["cycles"] >= 2 and inp["distance"] >= 3, sample=inp if i < 3 else None)
